@@ -125,10 +125,14 @@ Definition cut_incoming (ids : list Z) (i : incoming) : list incoming :=
          | _ => [mkI (i_id i) nl r s l (i_leftof i)]
          end
   end.
+(* left_of may only name an incoming element that is part of the new intersection (after
+   "fix: create_from_lanelet_network clears left_of ...") *)
+Definition fix_leftof (kept : list Z) (i : incoming) : incoming :=
+  mkI (i_id i) (i_lanelets i) (i_right i) (i_straight i) (i_left i) (keepo (fun z => mem z kept) (i_leftof i)).
 Definition cut_inter (ids : list Z) (x : inter) : list inter :=
   match flat_map (cut_incoming ids) (x_incs x) with
   | [] => []
-  | incs => [mkX (x_id x) incs (keepl (fun z => mem z ids) (x_cross x))]
+  | incs => [mkX (x_id x) (map (fix_leftof (map i_id incs)) incs) (keepl (fun z => mem z ids) (x_cross x))]
   end.
 Definition selected (sel : list Z) (shape : bool) (excl : list Z) (l : lanelet) : bool :=
   negb (overlaps (l_types l) excl || (shape && negb (mem (l_id l) sel))).
@@ -172,9 +176,13 @@ Definition step (n : network) (o : op) : network * unit := (apply o n, tt).
 (* ---------------------------------------------------------------- well-formedness and the specification *)
 Definition opt_in (o : option Z) (l : list Z) : Prop := match o with Some z => In z l | None => True end.
 
+(* a direction flag only together with an adjacency (the Lanelet constructor guarantees it) *)
+Definition dir_ok (o : option Z) (d : option bool) : Prop := match o with None => d = None | Some _ => True end.
+
 Definition wf_lanelet (n : network) (l : lanelet) : Prop :=
   incl (l_pred l) (lanelet_ids n) /\ incl (l_succ l) (lanelet_ids n) /\
   opt_in (l_adjL l) (lanelet_ids n) /\ opt_in (l_adjR l) (lanelet_ids n) /\
+  dir_ok (l_adjL l) (l_adjL_dir l) /\ dir_ok (l_adjR l) (l_adjR_dir l) /\
   incl (l_signs l) (sign_ids n) /\ incl (l_lights l) (light_ids n) /\
   match l_stop l with
   | Some (s, t) => incl s (l_signs l) /\ incl t (l_lights l)     (* a stop line refers only to what its lanelet references *)
@@ -183,54 +191,71 @@ Definition wf_lanelet (n : network) (l : lanelet) : Prop :=
 Definition wf_incoming (n : network) (i : incoming) : Prop :=
   incl (i_lanelets i) (lanelet_ids n) /\ incl (i_right i) (lanelet_ids n) /\
   incl (i_straight i) (lanelet_ids n) /\ incl (i_left i) (lanelet_ids n).
+(* left_of names an incoming element of the same intersection *)
 Definition wf_inter (n : network) (x : inter) : Prop :=
-  (forall i, In i (x_incs x) -> wf_incoming n i) /\ incl (x_cross x) (lanelet_ids n).
+  (forall i, In i (x_incs x) -> wf_incoming n i /\ opt_in (i_leftof i) (map i_id (x_incs x))) /\
+  incl (x_cross x) (lanelet_ids n).
 
-(* every reference of the kinds the property lists resolves, ids are unique per kind *)
+(* every reference resolves, ids are unique per kind *)
 Definition WF (n : network) : Prop :=
   NoDup (lanelet_ids n) /\ NoDup (sign_ids n) /\ NoDup (light_ids n) /\ NoDup (inter_ids n) /\
   (forall l, In l (lanelets n) -> wf_lanelet n l) /\ (forall x, In x (inters n) -> wf_inter n x).
 
-(* left_of is not among the references the property lists; it is tracked separately *)
-Definition leftof_ok (n : network) : Prop :=
-  forall x i, In x (inters n) -> In i (x_incs x) -> opt_in (i_leftof i) (map i_id (x_incs x)).
+(* the specification "kept part": keep the lanelets / signs / lights / intersections the four predicates select and
+   drop exactly the references to what is not kept; nothing else changes (types, payloads, left_of, order) *)
+Definition clean_lanelet (kL kS kT : Z -> bool) (l : lanelet) : lanelet :=
+  mkL (l_id l) (keepl kL (l_pred l)) (keepl kL (l_succ l))
+      (keepo kL (l_adjL l)) (keepd kL (l_adjL l) (l_adjL_dir l)) (keepo kL (l_adjR l)) (keepd kL (l_adjR l) (l_adjR_dir l))
+      (keepl kS (l_signs l)) (keepl kT (l_lights l))
+      (match l_stop l with Some (s, t) => Some (keepl kS s, keepl kT t) | None => None end)
+      (l_types l) (l_payload l).
+Definition restrict (kL kS kT kX : Z -> bool) (n : network) : network :=
+  mkN (map (clean_lanelet kL kS kT) (filter (fun l => kL (l_id l)) (lanelets n)))
+      (filter (fun s => kS (fst s)) (signs n)) (filter (fun s => kT (fst s)) (lights n))
+      (map (clean_inter_l kL) (filter (fun x => kX (x_id x)) (inters n))).
 
-(* the specification "kept part": keep the lanelets / signs / lights / intersections the predicates select and
-   drop exactly the references to what is not kept; nothing else changes *)
-Definition restrict_lanelets (k : Z -> bool) (n : network) : network :=
-  mkN (map (clean_lanelet_l k) (filter (fun l => k (l_id l)) (lanelets n))) (signs n) (lights n)
-      (map (clean_inter_l k) (inters n)).
-Definition restrict_signs (k : Z -> bool) (n : network) : network :=
-  mkN (map (clean_lanelet_s k) (lanelets n)) (filter (fun s => k (fst s)) (signs n)) (lights n) (inters n).
-Definition restrict_lights (k : Z -> bool) (n : network) : network :=
-  mkN (map (clean_lanelet_t k) (lanelets n)) (signs n) (filter (fun s => k (fst s)) (lights n)) (inters n).
-Definition restrict_inters (k : Z -> bool) (n : network) : network :=
-  mkN (lanelets n) (signs n) (lights n) (filter (fun x => k (x_id x)) (inters n)).
-
+Definition all : Z -> bool := fun _ => true.
+Definition none : Z -> bool := fun _ => false.
 Definition notin (l : list Z) : Z -> bool := fun z => negb (mem z l).
+Definition isin (l : list Z) : Z -> bool := fun z => mem z l.
+Definition neq (i : Z) : Z -> bool := fun z => negb (z =? i).
 
 (* what create_from_lanelet_network does beyond the specification: incoming elements without remaining incoming
-   lanelets or without any remaining successor, and intersections without remaining incoming element, are dropped *)
-Definition prune_incoming (i : incoming) : bool :=
+   lanelets or without any remaining successor, and intersections without remaining incoming element, are dropped;
+   a left_of that names a dropped incoming element is cleared *)
+Definition live_incoming (i : incoming) : bool :=
   match i_lanelets i with [] => false | _ => match i_left i ++ i_straight i ++ i_right i with [] => false | _ => true end end.
 Definition prune_inter (x : inter) : list inter :=
-  match filter prune_incoming (x_incs x) with [] => [] | incs => [mkX (x_id x) incs (x_cross x)] end.
+  match filter live_incoming (x_incs x) with
+  | [] => []
+  | incs => [mkX (x_id x) (map (fix_leftof (map i_id incs)) incs) (x_cross x)]
+  end.
+Definition prune (n : network) : network :=
+  mkN (lanelets n) (signs n) (lights n) (flat_map prune_inter (inters n)).
+
+(* the lanelets / signs / lights a cut-out keeps *)
+Definition cut_kept (sel : list Z) (shape : bool) (excl : list Z) (n : network) : list lanelet :=
+  filter (selected sel shape excl) (lanelets n).
 
 (* boolean well-formedness (used on concrete networks: generated cases, examples) *)
 Fixpoint nodupb (l : list Z) : bool :=
   match l with [] => true | x :: r => negb (mem x r) && nodupb r end.
 Definition inclb (a b : list Z) : bool := forallb (fun z => mem z b) a.
 Definition opt_inb (o : option Z) (l : list Z) : bool := match o with Some z => mem z l | None => true end.
+Definition dir_okb (o : option Z) (d : option bool) : bool :=
+  match o, d with None, Some _ => false | _, _ => true end.
 Definition wfb_lanelet (n : network) (l : lanelet) : bool :=
   inclb (l_pred l) (lanelet_ids n) && inclb (l_succ l) (lanelet_ids n) &&
   opt_inb (l_adjL l) (lanelet_ids n) && opt_inb (l_adjR l) (lanelet_ids n) &&
+  dir_okb (l_adjL l) (l_adjL_dir l) && dir_okb (l_adjR l) (l_adjR_dir l) &&
   inclb (l_signs l) (sign_ids n) && inclb (l_lights l) (light_ids n) &&
   match l_stop l with Some (s, t) => inclb s (l_signs l) && inclb t (l_lights l) | None => true end.
 Definition wfb_incoming (n : network) (i : incoming) : bool :=
   inclb (i_lanelets i) (lanelet_ids n) && inclb (i_right i) (lanelet_ids n) &&
   inclb (i_straight i) (lanelet_ids n) && inclb (i_left i) (lanelet_ids n).
 Definition wfb_inter (n : network) (x : inter) : bool :=
-  forallb (wfb_incoming n) (x_incs x) && inclb (x_cross x) (lanelet_ids n).
+  forallb (fun i => wfb_incoming n i && opt_inb (i_leftof i) (map i_id (x_incs x))) (x_incs x) &&
+  inclb (x_cross x) (lanelet_ids n).
 Definition wfb (n : network) : bool :=
   nodupb (lanelet_ids n) && nodupb (sign_ids n) && nodupb (light_ids n) && nodupb (inter_ids n) &&
   forallb (wfb_lanelet n) (lanelets n) && forallb (wfb_inter n) (inters n).
